@@ -87,6 +87,26 @@ FIXED = [
     r'let n = N in [("a"{n} | "b"{n}), `n`]',
     r'(let x = "a" in [`x`, "b"]) | (let x = "a" in [`x`, "a"])',
 ]
+def shadow_recovery_stratum():
+    """a let that shadows an outer binding whose BODY fails, the failure being recovered by a later alternative, an
+    option or the end of a repetition, after which the outer name is used again (inline read, predicate, count)"""
+    out = []
+    outers = [('let x = D in {b}', 'x', 's'), ('let n = N in {b}', 'n', 'i')]
+    for outer, v, kind in outers:
+        inner_src = 'N' if kind == 'i' else 'W'
+        inners = [f'(let {v} = {inner_src} in "!")', f'(let {v} = {inner_src} in ["-", "!"])',
+                  f'(let {v} = {inner_src} in (let {v} = {inner_src} in "!"))']
+        uses = [f'`{v}`'] + ([f'"a"{{{v}}}', f'(N where `lambda q: q == {v}`)'] if kind == 'i' else [f'(D where `lambda q: q == {v}`)', f'(W where `lambda q: len(q) > len({v})`)'])
+        for inner in inners:
+            recoveries = [f'({inner} | /[0-9ab]*/)', f'Opt({inner})', f'({inner})*', f'[Opt({inner}), /[0-9ab]*/]',
+                          f'(Expect({inner}) | "")', f'ExpectNot({inner})']
+            for rec in recoveries:
+                for use in uses:
+                    out.append(outer.format(b=f'[{rec}, {use}]'))
+                    out.append(outer.format(b=f'[{rec}, "-"?, {use}, {use}]'))
+    return out
+
+
 SHADOW_FIXED = [
     r'let x = "a" in [(let x = "b" in `x`), `x`]',
     r'let x = D in [(let x = W in `x`)*, `x`]',
@@ -99,7 +119,8 @@ CLASS_FIXED = [
 ]
 TEXTS = [''.join(p) for L in range(0, 4) for p in itertools.product('12ab', repeat=L)] + \
         ['2:ab', '2:a', '1:ab', '12b', '1a', 'ab:ab', 'ab:abb', 'a:b', '2aa1a0', '1a2b', '1,2', '1a,2b,', '1a1a', '1a1a!',
-         '1ab', '12a', '21b', '1a2', '2ab2', '2bb2', '2ab1', '123', 'aab', 'aaa', '1:a2:ab', '3:aba', '1a:a', '1a:b', '11']
+         '1ab', '12a', '21b', '1a2', '2ab2', '2bb2', '2ab1', '123', 'aab', 'aaa', '1:a2:ab', '3:aba', '1a:a', '1a:b', '11',
+         '23ab', '23aa', '12a', '13a', '2ab-1', '1ab1', '1a!1', '12!2', '12-!1', '21a', '22aa', '212aa', '1abab', '1aab', '2ab!ab']
 
 
 def shadows(ex):
@@ -151,9 +172,10 @@ def shadows(ex):
 
 def jobs_for(tier, rnd):
     jobs, gid = [], 0
-    n = 700 if tier == 'quick' else 12000
+    n = 1000 if tier == 'quick' else 12000
     descs = [('start = ' + e + '\n' + PRELUDE, 'fixed') for e in FIXED]
     descs += [('start = ' + e + '\n' + PRELUDE, 'shadow-fixed') for e in SHADOW_FIXED]
+    descs += [('start = ' + e + '\n' + PRELUDE, 'shadow-recovery') for e in shadow_recovery_stratum()]
     for cd, name, sh in CLASS_FIXED:
         descs.append((cd + '\nstart = ' + name + '+\n' + PRELUDE, 'class-fixed'))
     while len(descs) < n:
